@@ -6,6 +6,7 @@ import (
 	"fmt"
 	"html"
 	"math/rand"
+	"regexp"
 	"strings"
 	"testing"
 	"unicode"
@@ -132,39 +133,57 @@ func vC11Attribute(in, norm []byte) (string, string) {
 	// every literal "https" to "http", then keep the letters - and the original
 	// token must equal that; a literal "https" that survived the first
 	// tokenisation is not this finding.)
-	rawLines := strings.Split(string(in), "\n")
-	specToken := func(line int, tok string) bool {
-		if line < 1 || line > len(rawLines) {
-			return false
+	// raw fields of the whole input with hyphen + line break (+ indentation) joined,
+	// as the tokenizer joins them
+	joined := regexp.MustCompile(`-\r?\n[ \t]*`).ReplaceAllString(strings.ToLower(string(in)), "")
+	specTokens := map[string]bool{}
+	for _, f := range strings.Fields(joined) {
+		f = strings.TrimLeftFunc(f, func(c rune) bool { return !(unicode.IsLetter(c) || unicode.IsDigit(c) || c == '&' || c == '(') })
+		f = strings.ReplaceAll(html.UnescapeString(f), "https", "http")
+		var sb strings.Builder
+		for _, c := range f {
+			if unicode.IsLetter(c) {
+				sb.WriteRune(c)
+			}
 		}
-		for _, f := range strings.Fields(strings.ToLower(rawLines[line-1])) {
-			f = strings.TrimLeftFunc(f, func(c rune) bool { return !(unicode.IsLetter(c) || unicode.IsDigit(c) || c == '&' || c == '(') })
-			f = strings.ReplaceAll(html.UnescapeString(f), "https", "http")
-			var sb strings.Builder
-			for _, c := range f {
-				if unicode.IsLetter(c) {
-					sb.WriteRune(c)
+		specTokens[sb.String()] = true
+	}
+	specToken := func(line int, tok string) bool { return specTokens[tok] }
+	// pair off the https-born replacements first (they may occur together with the
+	// other findings in one input)
+	httpsPairs := 0
+	{
+		usedB := map[int]bool{}
+		var restA []int
+		for _, ia := range da {
+			o := wa[ia]
+			paired := false
+			if strings.Contains(o, "https") && specToken(la[ia], o) {
+				want := strings.ReplaceAll(o, "https", "http")
+				for _, ib := range db {
+					if !usedB[ib] && wb[ib] == want {
+						usedB[ib] = true
+						paired = true
+						httpsPairs++
+						break
+					}
 				}
 			}
-			if sb.String() == tok {
-				return true
+			if !paired {
+				restA = append(restA, ia)
 			}
 		}
-		return false
-	}
-	if len(da) == len(db) {
-		all := true
-		for k := range da {
-			o, n := wa[da[k]], wb[db[k]]
-			if !(strings.Contains(o, "https") && strings.ReplaceAll(o, "https", "http") == n) {
-				all = false
-			}
-			if !specToken(la[da[k]], o) {
-				all = false
+		var restB []int
+		for _, ib := range db {
+			if !usedB[ib] {
+				restB = append(restB, ib)
 			}
 		}
-		if all {
-			return "KF-C11-1", fmt.Sprintf("%d token(s) such as %q became %q", len(da), wa[da[0]], wb[db[0]])
+		if httpsPairs > 0 && len(restA) == 0 && len(restB) == 0 {
+			return "KF-C11-1", fmt.Sprintf("%d token(s) such as %q lost the 's' of an \"https\" that was born by cleaning", httpsPairs, wa[da[0]])
+		}
+		if httpsPairs > 0 {
+			da, db = restA, restB // the rest must be explained by another finding
 		}
 	}
 	// KF-C11-2: the cleaned text of a line reads as a notice/date line, or ends in
